@@ -1518,6 +1518,10 @@ func (t *tScreen) parseSgrMouse(buf *bytes.Buffer, evs *[]Event) (bool, bool) {
 			}
 			*evs = append(*evs, t.buildMouseEvent(x, y, btn))
 			return true, true
+
+		default:
+			// no other byte can be part of an SGR mouse record
+			return false, false
 		}
 	}
 
